@@ -16,7 +16,7 @@ META = dict(
     title='ACU executes exactly the well-formed, permitted, in-range commands',
     design_ref='DESIGN.md section 7, C14',
     coq_target='Properties/C14.vo',
-    coq_extra=['Corr/AcmdCorr.vo', 'Corr/AcmdResetCorr.vo'],
+    coq_extra=['Corr/AcmdCorr.vo', 'Corr/AcmdResetCorr.vo', 'Corr/AcmdStatusCorr.vo'],
     technique='Coq proof (framing automaton + _parse_commands + mode/parameter command acceptance on '
               'Flocq binary64 values, constants from a generated table) + in-Coq differential '
               'correspondence with the real System.parse and subsystem handlers',
@@ -26,7 +26,11 @@ META = dict(
                'axis state permits the mode and the parameters are finite and within the limits (real-'
                'number statement through Bcompare_correct), else 5 / 4; unknown modes are recorded as '
                '"no command"; refused commands leave motion, brakes, stow pins and offsets untouched; '
-               'counters are echoed. The model is compared with the real classes on every run. '
+               'counters are echoed; an accepted reset (mode 15) clears exactly the named flags of the error '
+               'word and nothing else, a refused one and every other command leave all status flags alone; '
+               'update_status sets the five limit / rate warning bits from the position and rate and keeps '
+               'the rest; the cable wrap receives no command and its brakes follow the master state. '
+               'The model is compared with the real classes on every run. '
                'Partial: a command thread is one atomic step up to its first sleep (later loop '
                'iterations and real thread interleaving are C15 / runtime behaviour); the pointing '
                'time-source/time-offset parameter commands and the program-track table load are '
@@ -40,7 +44,8 @@ META = dict(
     rule='one case = one history of messages (plus direct state pokes) on a fresh System; non-trivial = '
          'distinct history reaching an executed command, a refused command or a framing error',
     trusted=['Flocq 4 IEEE754.BinarySingleNaN (Bcompare, Bmult, Bplus, Bdiv, Bnearbyint, Btrunc)',
-             'gen/acmd_tables.py (source shapes and literals of parse/_parse_commands/_validate_mode_command)'],
+             'gen/acmd_tables.py (source shapes and literals of parse/_parse_commands/_validate_mode_command, '
+             '_reset, the error/warning flag setters, both update_status methods)'],
     assumptions=['a command thread runs atomically up to its first time.sleep (no preemption inside '
                  '_mode_command/_parameter_command)',
                  'bytes reaching System.parse are single latin-1 characters (code points 0..255)'],
@@ -404,6 +409,7 @@ def correspondence(ctx):
     ctx.run_cases('acu_commands', 'From DS Require Import Corr.AcmdCorr.', 'acase', 'ok', cases,
                   show='show', shard=ctx.n(40, 120))
     reset_correspondence(ctx)
+    status_correspondence(ctx)
 
 
 # ---------------------------------------------------------------------------
@@ -669,6 +675,7 @@ def oracle(ctx):
             examine(A, T, ops, report)
             checked += sum(1 for o in ops if o[0] == 'feed')
     checked += reset_oracle(ctx, T, pool)
+    checked += status_oracle(ctx, T, pool)
     ctx.oracle_stats = dict(histories=len(histories), messages=checked)
     ctx.evaluations += checked
 
@@ -685,6 +692,10 @@ def replay(ctx, obj):
     """re-execute the recorded history; True when the recorded class still fails"""
     T = tables(ctx)
     hits = []
+    if 'status_case' in obj['witness']:
+        with L.patched() as A:
+            status_examine(A, T, obj['witness']['status_case'], lambda klass, what, **d: hits.append(klass))
+        return obj.get('klass') in hits
     if 'reset_case' in obj['witness']:
         with L.patched() as A:
             reset_examine(A, T, obj['witness']['reset_case'], lambda klass, what, **d: hits.append(klass))
@@ -749,6 +760,8 @@ def apply_prep(s, prep):
             L.poke(s, op[1], op[2], op[3])
         elif op[0] == 'flag':
             setattr(ax, op[2], bool(op[3]))
+        elif op[0] == 'set':
+            setattr(ax, op[2], op[3])
         elif op[0] == 'rawerr':
             errors = list(ax.errors)
             for k in op[2]:
@@ -832,6 +845,21 @@ RESET_CORPUS = [
     # activating (2): refused
     lambda T: dict(prep=[['poke', 1, 0, 2]] + [['flag', 1, n, True] for n, _ in T['error_flags']],
                    frame=L.frame(5, [mode_cmd(2, 6, 15)]).hex()),
+] + [
+    # every mode handler with every flag set, on the inactive and on the active axis: only reset clears
+    (lambda m, st: (lambda T: dict(
+        prep=[['flag', w, n, True] for w in (0, 1) for n, _ in T['error_flags']]
+        + [['rawerr', 0, UNNAMED_ERR_BITS], ['poke', 0, 0, st], ['poke', 1, 0, st]],
+        frame=L.frame(3, [mode_cmd(1, 100 + m, m, L.bits_of(1.0), L.bits_of(0.25)),
+                          mode_cmd(2, 200 + m, m, L.bits_of(0.0), L.bits_of(0.25))]).hex())))(m, st)
+    for m in MODES + BAD_MODES[:2] for st in (0, 3)
+] + [
+    # parameter commands with every flag set
+    (lambda st: (lambda T: dict(
+        prep=[['flag', w, n, True] for w in (0, 1) for n, _ in T['error_flags']]
+        + [['poke', 0, 0, st], ['poke', 1, 0, st]],
+        frame=L.frame(3, [L.cmd26(2, 1, 7, 11, L.bits_of(0.5), 0), L.cmd26(2, 2, 8, 12, L.bits_of(-0.5), 0)]).hex())))(st)
+    for st in (0, 3)
 ] + [
     # one flag at a time
     (lambda k: (lambda T: dict(prep=[['flag', k % 2, T['error_flags'][k % len(T['error_flags'])][0], True]],
@@ -940,4 +968,134 @@ def reset_oracle(ctx, T, pool):
                 seen.add(klass)
                 ctx.fail(klass, what, details)
             reset_examine(A, T, case, report)
+    return len(cases)
+
+
+# ---------------------------------------------------------------------------
+# update_status (limit / rate warning bits) and the slave axis: Model/AcmdStatus.v,
+# Corr/AcmdStatusCorr.v, theorems C14_update_status / C14_slave_axis.
+# A status case: dict(prep=[..] (ops as above plus ['set', which, attribute, int]), which=0|1)
+#             or dict(cw=True, master_state=n, garbage=mask)
+
+def gen_status_case(ctx, T, wnames):
+    rng = ctx.rng
+    if rng.random() < 0.15:
+        return dict(cw=True, master_state=rng.choice([0, 1, 2, 3, 3]), garbage=rng.choice([0, 1, 0xffff, 0x8001]))
+    which = rng.randrange(2)
+    c = T['AZ' if which == 0 else 'EL']
+    lo, hi = c['min_pos'] * 10 ** 6, c['max_pos'] * 10 ** 6
+    vmax = int(round(c['max_velocity'] * 1000000))
+    stow = [x * 10 ** 6 for x in c['stow_pos']]
+    prep = []
+    if rng.random() < 0.9:
+        prep.append(['poke', which, 1, rng.choice([lo, hi, lo - 1, hi + 1, lo + 1, hi - 1, lo - 7, hi + 7,
+                                                    rng.randrange(lo, hi + 1)] + stow + [x + 1 for x in stow])])
+    if rng.random() < 0.9:
+        prep.append(['set', which, 'v_Ist', rng.choice([0, vmax, -vmax, vmax + 1, -vmax - 1, vmax - 1, 1 - vmax,
+                                                         2 ** 31 - 1, -2 ** 31, rng.randrange(-2 * vmax, 2 * vmax)])])
+    if rng.random() < 0.5:
+        prep.append(['poke', which, 0, rng.choice([0, 1, 2, 3])])
+    pw = rng.choice([0.0, 0.5, 1.0])
+    for n in wnames:
+        if rng.random() < pw:
+            prep.append(['flag', which, n, True])
+    pe = rng.choice([0.0, 0.5])
+    for n, _ in T['error_flags']:
+        if rng.random() < pe:
+            prep.append(['flag', which, n, True])
+    return dict(prep=prep, which=which)
+
+
+def run_status_case(A, case):
+    s = L.new_system(A)
+    if case.get('cw'):
+        s.AZ.axis_state = case['master_state']
+        s.CW.brakes_open = [bool(case['garbage'] >> i & 1) for i in range(16)]
+        before = bytes(s.CW.status[:])
+        s.CW.update_status()
+        return before, bytes(s.CW.status[:]), L.b16(s.CW.brakes_open), L.b16([True] * len(s.CW.motor_status))
+    apply_prep(s, case['prep'])
+    ax = s.AZ if case['which'] == 0 else s.EL
+    pre = xsnapshot(ax)
+    ax.update_status()
+    return pre, xsnapshot(ax)
+
+
+def status_cases(ctx, T, n):
+    wnames = warning_flag_names(T)
+    cases = [dict(cw=True, master_state=st, garbage=g) for st in (0, 1, 2, 3) for g in (0, 0xffff)]
+    for which in (0, 1):
+        c = T['AZ' if which == 0 else 'EL']
+        lo, hi = c['min_pos'] * 10 ** 6, c['max_pos'] * 10 ** 6
+        vmax = int(round(c['max_velocity'] * 1000000))
+        for p in (lo - 1, lo, lo + 1, hi - 1, hi, hi + 1):
+            for v in (vmax, vmax + 1, -vmax - 1):
+                cases.append(dict(prep=[['poke', which, 1, p], ['set', which, 'v_Ist', v]], which=which))
+    cases += [gen_status_case(ctx, T, wnames) for _ in range(n)]
+    return cases
+
+
+def status_correspondence(ctx):
+    T = tables(ctx)
+    terms = []
+    with L.patched() as A:
+        for case in status_cases(ctx, T, ctx.n(120, 2000)):
+            r = run_status_case(A, case)
+            if case.get('cw'):
+                terms.append('SCw %s %s' % (zlit(case['master_state']), zlit(r[2])))
+                ctx.count('status-case:cable-wrap')
+            else:
+                terms.append('STick %d %s %s' % (case['which'], zlist(r[0]), zlist(r[1])))
+                ctx.count('status-case:update_status')
+                ctx.nontriv(('tick', case['which'], tuple(r[0]), tuple(r[1])))
+    ctx.run_cases('acu_status', 'From DS Require Import Corr.AcmdStatusCorr.', 'scase', 'sok', terms,
+                  show='srun', shard=ctx.n(80, 300))
+
+
+def status_examine(A, T, case, report):
+    """C14_update_status / C14_slave_axis over the real classes"""
+    r = run_status_case(A, case)
+    if case.get('cw'):
+        before, after, brakes, full = r
+        want = full if case['master_state'] == T['cw_active_state'] else 0
+        if brakes != want:
+            report('cw_brakes_wrong', 'the cable wrap brakes do not follow the master axis state: got %#x, '
+                   'expected %#x' % (brakes, want), status_case=case)
+        return
+    pre, post = r
+    c = T['AZ' if case['which'] == 0 else 'EL']
+    lo, hi = c['min_pos'] * 10 ** 6, c['max_pos'] * 10 ** 6
+    vmax = Fraction(repr(c['max_velocity'])) * 10 ** 6
+    p, v = pre[3], pre[5]
+    W = len(L.SNAP_FIELDS) + 1
+    bits = T['update_bits']
+    want = {'Pre_Limit_Dn': p <= lo, 'Fin_Limit_Dn': p < lo, 'Pre_Limit_Up': p >= hi, 'Fin_Limit_Up': p > hi,
+            'Rate_Limit': abs(v) > vmax}
+    got = {n: bool(post[W] >> bits[n] & 1) for n in want}
+    w = dict(status_case=case, p_Ist=p, v_Ist=v)
+    if got != want:
+        report('update_status_limit_bits_wrong', 'limit / rate warning bits after update_status: got %r, expected %r'
+               % (got, want), **w)
+    mask = sum(1 << bits[n] for n in want)
+    same = all(post[i] == pre[i] for i in range(len(pre)) if i not in (9, W)) and \
+        (post[W] ^ pre[W]) & ~mask == 0
+    if not same:
+        report('update_status_changed_other_state', 'update_status changed something besides stowPosOk and the '
+               'five limit / rate bits',
+               changed={XSNAP_FIELDS[i]: (pre[i], post[i]) for i in range(len(pre)) if pre[i] != post[i]}, **w)
+    if c['stow_pos'] and bool(post[9]) != (p in [x * 10 ** 6 for x in c['stow_pos']]):
+        report('update_status_stowPosOk_wrong', 'stowPosOk does not say whether the axis is at a stow position', **w)
+
+
+def status_oracle(ctx, T, pool):
+    seen = set()
+    cases = status_cases(ctx, T, ctx.n(300, 5000))
+    with L.patched() as A:
+        for case in cases:
+            def report(klass, what, **details):
+                if klass in seen and len(ctx.failures) > 40:
+                    return
+                seen.add(klass)
+                ctx.fail(klass, what, details)
+            status_examine(A, T, case, report)
     return len(cases)
